@@ -6,15 +6,14 @@
    DOMAIN = coq/C15/Fragment.v   ([in_fragment_C15], [query_ok]; every excluded shape is a recorded finding
                                   with a [_refuted] theorem below whose witness is that finding's replay)
 
-   Only PARTIALLY proved here (the rest is covered by the correspondence run and the oracle): the END line of
-   a scope (rope's indentation walk [find_scope_end] against [end_lineno]) and the scope holding a line; see
-   the [_partial] theorems.  The full-strength statements would be
-     C15_scope_ends_agree  : in_fragment_C15 p = true -> layout_regular lay p = true ->
-                             forall path, rope_end lay (scope at path) = sstop (spec scope at path)
-     C15_scope_for_line    : ... -> rope_scope_for_line lay (rope_tree p) l = spec_scope_for_line (spec_tree nl p) [] l
-   [C15_comprehension_extent_refuted] shows the first one needs a layout hypothesis. *)
+   Line extents: [C15_scope_ends_agree] and [C15_scope_for_line] are proved under the explicit, boolean layout
+   hypotheses of coq/C15/Layout.v ([ends_ok]: block layout of every scope - including one-line definitions and
+   statements continued over several physical lines; [lines_ok]: sub-scopes in line order, non-blank lines of
+   a function / class indented at least like its header).  That CPython's [end_lineno] satisfies [ends_ok] for
+   the source at hand is a property of the tokenizer's block structure; the check evaluates the predicates on
+   every generated case and counts them.  The earlier [_partial] statements are kept. *)
 From Coq Require Import List NArith Bool.
-From RopeVerif.C15 Require Import Syntax Scoping RopeScopes Fragment RopeScopesProofs LookupProofs ExtentProofs Witnesses Theorems.
+From RopeVerif.C15 Require Import Syntax Scoping RopeScopes Fragment RopeScopesProofs LookupProofs ExtentProofs Layout Witnesses Theorems LayoutProofs.
 Import ListNotations.
 
 (* The scopes rope builds are exactly the module's function, class and comprehension scopes, nested the same
@@ -64,7 +63,60 @@ Theorem C15_lookup_agrees_trees :
 Proof. exact lookup_agrees_trees. Qed.
 Print Assumptions C15_lookup_agrees_trees.
 
-(* PARTIAL (line extents).  Full strength would be [C15_scope_for_line] / [C15_scope_ends_agree] of the header
+(* The end line of every scope: for every module of the fragment whose layout satisfies [ends_ok] (Layout.v),
+   and every function / class / comprehension scope of it, the end rope computes - [find_scope_end]'s indentation
+   walk over the logical lines followed by [get_end], including the one-liner branch - is the last line of the
+   scope's ast node. *)
+Theorem C15_scope_ends_agree :
+  forall (lay : list lineinfo) (p : program) (nl : N) (path : list nat) (rs : rscope) (ss : sscope),
+    in_fragment_C15 p = true ->
+    ends_ok lay (rope_tree p) (spec_tree nl p) = true ->
+    scope_at (rope_tree p) path = Some rs -> sscope_at (spec_tree nl p) path = Some ss ->
+    rk rs <> KModule ->
+    rope_end lay rs = sstop ss.
+Proof. exact scope_ends_agree_fragment. Qed.
+Print Assumptions C15_scope_ends_agree.
+
+(* The same without the fragment hypothesis, for any two trees that [ends_ok] can walk in parallel. *)
+Theorem C15_scope_ends_agree_trees :
+  forall lay p nl path rs ss,
+    ends_ok lay (rope_tree p) (spec_tree nl p) = true ->
+    scope_at (rope_tree p) path = Some rs -> sscope_at (spec_tree nl p) path = Some ss ->
+    rk rs <> KModule -> rk rs <> KLambda ->
+    rope_end lay rs = sstop ss.
+Proof. exact scope_ends_agree. Qed.
+Print Assumptions C15_scope_ends_agree_trees.
+
+(* The scope holding a line: for every non-blank, non-comment line l, [get_inner_scope_for_line(l)] - followed
+   down to the innermost function / class / module on its path, since a comprehension shares its lines with
+   the statement that contains it - is the innermost function / class / module whose ast extent contains l. *)
+Theorem C15_scope_for_line :
+  forall (lay : list lineinfo) (p : program) (nl : N) (l : N),
+    in_fragment_C15 p = true ->
+    ends_ok lay (rope_tree p) (spec_tree nl p) = true ->
+    lines_ok lay (rope_tree p) = true ->
+    li_empty (line_at lay l) = false ->
+    strip_comps (rope_tree p) (rope_scope_for_line lay (rope_tree p) l)
+    = spec_scope_for_line (spec_tree nl p) [] l.
+Proof. exact scope_for_line. Qed.
+Print Assumptions C15_scope_for_line.
+
+Example C15_layouts_inhabited :
+  in_fragment_C15 w_oneliners = true
+  /\ ends_ok lay_example (rope_tree w_example) (spec_tree 20 w_example) = true
+  /\ lines_ok lay_example (rope_tree w_example) = true
+  /\ ends_ok lay_oneliners (rope_tree w_oneliners) (spec_tree 21 w_oneliners) = true
+  /\ lines_ok lay_oneliners (rope_tree w_oneliners) = true
+  /\ rope_scope_for_line lay_oneliners (rope_tree w_oneliners) 4 = [0; 0]%nat
+  /\ spec_scope_for_line (spec_tree 21 w_oneliners) [] 4 = [0; 0]%nat
+  /\ rope_scope_for_line lay_oneliners (rope_tree w_oneliners) 17 = [2]%nat
+  /\ strip_comps (rope_tree w_oneliners) [2]%nat = []
+  /\ (exists s, scope_at (rope_tree w_oneliners) [0; 0]%nat = Some s /\ one_liner lay_oneliners s = true
+                /\ rope_end lay_oneliners s = 4%N).
+Proof. exact example_layouts. Qed.
+Print Assumptions C15_layouts_inhabited.
+
+(* PARTIAL (line extents), kept from the first round.  Full strength is [C15_scope_for_line] / [C15_scope_ends_agree] of the header
    comment.  Proved for every layout, every tree and every line: the scope rope reports for a line is a valid
    path of the tree and every scope on the way down contains the line in its own extent get_start .. get_end;
    and the end rope computes for a function / class is never before the last statement of its body. *)
@@ -177,6 +229,12 @@ Theorem C15_global_not_honoured_refuted :
                     ids_global_declaration_not_honoured.
 Proof. exact global_not_honoured_refuted. Qed.
 Print Assumptions C15_global_not_honoured_refuted.
+
+Theorem C15_module_level_global_refuted :
+  in_fragment_C15 w_module_level_global_unbound = false
+  /\ lookup_differs w_module_level_global_unbound 3 bi_module_level_global_unbound ids_module_level_global_unbound.
+Proof. exact module_level_global_refuted. Qed.
+Print Assumptions C15_module_level_global_refuted.
 
 Theorem C15_lambda_refuted :
   in_fragment_C15 w_lambda_no_scope = false
